@@ -156,6 +156,9 @@ _T["C03"] = ("Theorems: for every pattern of the property's grammar that satisfi
             "Lean 4 theorem (greedy walker = declarative language under the side condition) + differential correspondence")
 for _k in ("C02", "C06", "C08", "C09", "C05", "C01", "C04", "C17", "C18", "C19"):
     _T[_k] = ("(theorems in progress)", "Lean kernel + standard axioms; context model tied to parser.c by scripted differential testing", "Lean 4 theorems over the context model + differential correspondence")
+_T["C18"] = ("Theorems resultError_one_part / resultError_two_parts: for every 16-bit code, every description and every NUL-free text of any length and content, in the one-part (malloc) and two-part (static heap, wrapped) layouts, the model of SCPI_ResultError writes exactly response(code, description, text) of Spec/ErrorString.lean; response_shape: that response is the code, a comma and one 488.2 string whose unescaped content is the longest prefix of description;text that fits 255 escaped characters; escape_injective; description_total over the generated error list.",
+            "Lean kernel + standard axioms; translator for LIST_OF_ERRORS and the 255 limit; model tied to parser.c/error.c by differential testing in three configurations (texts wrapped around the heap end included) and an independent reader of the response",
+            "Lean 4 theorem (loop invariant on the remaining budget) + differential correspondence")
 _T["C01"] = ("PARTIAL BY NATURE. Theorems (Props/C01.lean): every recogniser keeps its cursor and token extent inside its input (from the C13 theorems, block recogniser included); the unit detector always makes progress and never leaves its input, so the unit loop of SCPI_Parse and the scan loop of SCPI_Input terminate; SCPI_Parse never exhausts its step budget, never composes a header before the start of the buffer and modifies no byte outside the message; SCPI_Input keeps position < buffer length for every chunk history; an over-long chunk copies nothing; SCPI_ParamCopyText and the array readers never store beyond the caller's capacity. These are statements about the algorithm as modelled: a C-level out-of-bounds read caused by a broken check-then-read pair, signed overflow or libc reading past a token cannot be exhibited by the model; for those the evidence is testing: every correspondence domain runs under ASan+UBSan with exact-size heap objects, canaries, a watchdog and the guarded buffer-tail poisoning hook, in four build configurations.",
             "Lean kernel + standard axioms for the bounds/termination theorems; memory safety and undefined arithmetic of the C code itself are observed by sanitizers under the generators (testing)",
             "Lean 4 bounds and termination theorems over the model + sanitizer-instrumented differential correspondence")
@@ -163,5 +166,5 @@ for _k, (_a, _b, _c) in _T.items():
     PROPS[_k]["level_text"], PROPS[_k]["level_note"], PROPS[_k]["technique"] = _a, _b, _c
 
 # properties whose theorem module is not complete yet are not claimed
-for _k in ("C03", "C02", "C06", "C08", "C09", "C05", "C04", "C17", "C18", "C19"):  # C01 claimed
+for _k in ("C02", "C06", "C08", "C09", "C05", "C04", "C17", "C19"):  # unclaimed
     PROPS[_k]["unclaimed"] = True
